@@ -24,7 +24,7 @@
 namespace vs {
 struct Sched {
   enum St { RUN, BLK, DONE };
-  struct T { St st; const void *on; bool cvwait = false; };
+  struct T { St st; const void *on; bool cvwait = false; bool injected = false; };
   std::mutex m; std::condition_variable cv;                 // the baton (real primitives, used only here)
   std::vector<T> th; int cur = -1;
   uint64_t rng = 1; int strategy = 0;                        // 0: uniform random, 1: random priorities with change points (PCT-like)
@@ -37,7 +37,7 @@ struct Sched {
   Sched() { th.reserve(256); prio.reserve(256); }
   static Sched &I() { static Sched s; return s; }
   static int &self() { static thread_local int id = -1; return id; }
-  void ensure_main() { if (self() < 0) { self() = (int)th.size(); th.push_back({RUN, nullptr, false}); prio.push_back(1000); cur = self(); } }
+  void ensure_main() { if (self() < 0) { self() = (int)th.size(); th.push_back({RUN, nullptr, false, false}); prio.push_back(1000); cur = self(); } }
   uint64_t next() { rng ^= rng << 13; rng ^= rng >> 7; rng ^= rng << 17; return rng >> 11; }
   int choose(const std::vector<int> &r) {
     if (script_pos < script.size()) { int want = script[script_pos++]; for (int x : r) if (x == want) return x; }
@@ -55,7 +55,7 @@ struct Sched {
     // a condition wait may return without a notification: now and then wake one thread that sleeps in a condition wait
     if (spur_budget > 0 && next() % 6 == 0) {
       std::vector<int> w; for (size_t i = 0; i < th.size(); i++) if (th[i].st == BLK && th[i].cvwait) w.push_back((int)i);
-      if (!w.empty()) { int x = w[next() % w.size()]; th[x].st = RUN; th[x].on = nullptr; th[x].cvwait = false; spur_budget--; spurious++; }
+      if (!w.empty()) { int x = w[next() % w.size()]; th[x].st = RUN; th[x].on = nullptr; th[x].cvwait = false; th[x].injected = true; spur_budget--; spurious++; }
     }
     std::vector<int> r; for (size_t i = 0; i < th.size(); i++) if (th[i].st == RUN) r.push_back((int)i);
     if (r.empty()) {
@@ -84,13 +84,20 @@ template <class M> struct vunique_lock { M *m; bool owns;
   void unlock() { m->unlock(); owns = false; } void unlock_raw() { m->unlock_raw(); owns = false; } void lock() { m->lock(); owns = true; } };
 template <class M> struct vlock_guard { M &m; explicit vlock_guard(M &mm) : m(mm) { m.lock(); } ~vlock_guard() { m.unlock(); } };
 struct vcondvar {
-  template <class L> void wait(L &l) { Sched::I().point(); l.unlock_raw(); Sched::I().block_on(this, true); l.lock(); }
+  template <class L> void wait(L &l) { Sched::I().point(); l.unlock_raw(); Sched::I().block_on(this, true); Sched::I().th[Sched::self()].injected = false; l.lock(); }
   template <class L, class P> void wait(L &l, P p) { while (!p()) wait(l); }
+  // timed waits: time is abstract under the scheduler, so a timed wait may time out whenever the scheduler injects a wake-up
+  // without a notification (same budget as spurious wake-ups); otherwise it behaves like wait
+  template <class L> bool wait_timed(L &l) { auto &S = Sched::I(); S.point(); l.unlock_raw(); S.block_on(this, true); bool timed_out = S.th[Sched::self()].injected; S.th[Sched::self()].injected = false; l.lock(); return timed_out; }
+  template <class L, class D> std::cv_status wait_for(L &l, const D &) { return wait_timed(l) ? std::cv_status::timeout : std::cv_status::no_timeout; }
+  template <class L, class D, class P> bool wait_for(L &l, const D &, P p) { while (!p()) if (wait_timed(l)) return p(); return true; }
+  template <class L, class D> std::cv_status wait_until(L &l, const D &) { return wait_timed(l) ? std::cv_status::timeout : std::cv_status::no_timeout; }
+  template <class L, class D, class P> bool wait_until(L &l, const D &, P p) { while (!p()) if (wait_timed(l)) return p(); return true; }
   void notify_all() { Sched::I().wake_all(this); } void notify_one() { Sched::I().wake_all(this); } };
 struct vthread { std::thread t; int id = -1; vthread() {}
   template <class F, class... A> explicit vthread(F &&f, A &&...a) {
     auto &S = Sched::I(); S.ensure_main();
-    { std::unique_lock<std::mutex> lk(S.m); id = (int)S.th.size(); S.th.push_back({Sched::RUN, nullptr, false}); S.prio.push_back((int)(S.next() % 1000)); }
+    { std::unique_lock<std::mutex> lk(S.m); id = (int)S.th.size(); S.th.push_back({Sched::RUN, nullptr, false, false}); S.prio.push_back((int)(S.next() % 1000)); }
     int myid = id;
     t = std::thread([myid](auto fn, auto... args) {
       auto &S = Sched::I(); Sched::self() = myid;
